@@ -2,6 +2,9 @@ package main
 
 import (
 	"bytes"
+	"encoding/json"
+	"os"
+	"path/filepath"
 	"crypto/ed25519"
 	"crypto/rsa"
 	"crypto/x509"
@@ -184,6 +187,55 @@ func runC14(cx *ctx) {
 		{"plugin.ParseRecipient", []byte(plugRec), func(b []byte) string { n, d, err := plugin.ParseRecipient(string(b)); _ = d; return errShape(n, err) }},
 		{"plugin.NewIdentity", []byte(plugID), func(b []byte) string { v, err := plugin.NewIdentity(string(b), nil); return errShape(v, err) }},
 		{"plugin.NewRecipient", []byte(plugRec), func(b []byte) string { v, err := plugin.NewRecipient(string(b), nil); return errShape(v, err) }},
+	}
+	// regression corpus first: hostile key strings found in earlier studies (corpus/regress/keystrings.json)
+	if b, err := os.ReadFile(filepath.Join(corpusDir(), "regress", "keystrings.json")); err == nil {
+		var reg struct {
+			KeyStrings []string `json:"key_strings"`
+		}
+		if json.Unmarshal(b, &reg) == nil {
+			for _, ks := range reg.KeyStrings {
+				for _, e := range entries {
+					if !strings.HasPrefix(e.name, "Parse") && !strings.HasPrefix(e.name, "plugin.") {
+						continue
+					}
+					ks, e := ks, e
+					cx.ru.Do(func() *h.Case {
+						return guarded(e.name, "regression corpus", func() *h.Case {
+							in := []byte(ks)
+							if e.name == "ParseIdentities" || e.name == "ParseRecipients" {
+								in = []byte("# key file\n" + ks + "\n")
+							}
+							out := e.run(in)
+							return &h.Case{Kind: e.name + "-regress", Impl: out, NonTrivial: true, Note: fmt.Sprintf("regression input %q", ks)}
+						})
+					})
+				}
+			}
+		}
+	}
+	// Unicode case-folding confusables substituted into valid key strings
+	confusables := []string{"\u212a", "\u017f", "\u0130", "\u0131", "\uff21", "\uff41", "\u00df", "\u2126"}
+	for _, e := range entries {
+		if !strings.HasPrefix(e.name, "Parse") && !strings.HasPrefix(e.name, "plugin.") {
+			continue
+		}
+		for i := 0; i < cx.n(60, 600); i++ {
+			e := e
+			rr := r.Fork()
+			cx.ru.Do(func() *h.Case {
+				sd := []rune(string(e.seed))
+				for k := 1 + rr.Intn(2); k > 0 && len(sd) > 0; k-- {
+					pos := rr.Intn(len(sd))
+					sd[pos] = []rune(h.Pick(rr, confusables))[0]
+				}
+				in := []byte(string(sd))
+				return guarded(e.name, "confusable", func() *h.Case {
+					out := e.run(in)
+					return &h.Case{Kind: e.name + "-confusable", Impl: out, NonTrivial: true, Note: fmt.Sprintf("confusable input %q", trunc(string(in)))}
+				})
+			})
+		}
 	}
 	for _, e := range entries {
 		for i := 0; i < cx.n(600, 8000); i++ {
